@@ -4,7 +4,7 @@
 # suite, and that the demo fails with it and passes without it. On success stores it under
 # /verif/seeded/<name>/.
 id="$1"; patch="$2"; demo="$3"; name="$4"
-wt=/tmp/wt/$id
+wt=${WT:-/tmp/wt}/$id
 cd "$wt" || exit 2
 git checkout -q -- . ; rm -f tests/demo_mutant.rs
 git apply "mutant/$patch" || { echo "APPLY-FAIL"; exit 1; }
